@@ -42,7 +42,7 @@ Section Order.
   Definition run_visit (pe px : bool) (fuel : nat) (root : N) : option (list event) :=
     match visit pe px fuel root (m_new, []) with
     | None => None
-    | Some s => Some (rev (snd s))
+    | Some s => Some (rev_append (snd s) [])      (* = rev (snd s), linear time *)
     end.
 
   (* PreOrder, order.go:12-28 *)
@@ -57,4 +57,4 @@ Section Order.
 End Order.
 
 (* Reverse, order.go:52-57 *)
-Definition reverse (xs : list N) : list N := rev xs.
+Definition reverse (xs : list N) : list N := rev_append xs [].   (* = rev xs (rev_alt) *)
